@@ -8,6 +8,7 @@ use crate::prng::Rng;
 pub mod c01;
 pub mod c02;
 pub mod c03;
+pub mod c04;
 pub mod c05;
 pub mod c09;
 pub mod c13;
@@ -259,6 +260,7 @@ pub fn dispatch(cfg: &RunCfg, rep: &mut Report) -> bool {
         "C01" => c01::run(cfg, rep),
         "C02" => c02::run(cfg, rep),
         "C03" => c03::run(cfg, rep),
+        "C04" => c04::run(cfg, rep),
         "C05" => c05::run(cfg, rep),
         "C09" => c09::run(cfg, rep),
         "C13" => c13::run(cfg, rep),
